@@ -188,6 +188,7 @@ def proxy_part(ctx, sim, rng, rounds):
             want = [[value_of(i)] for i in idxs]
             # a fault on the next connection or, if a gateway is open, none is planned: force a new connection first
             via.close_gateway()
+            via.timeout = 0.4
             kind = rng.choice(['s2c_cut', 's2c_drop', 'c2s_cut'])
             plan = {'s2c_cut': rng.choice([0, 10, 28, 29, 60, 90, 120]), 's2c_drop': rng.choice([1, 2]), 'c2s_cut': rng.choice([28, 40, 70])}
             relay.plan(**{kind: plan[kind]})
@@ -206,7 +207,10 @@ def proxy_part(ctx, sim, rng, rounds):
             if exc is not None and via.gateway is not None:
                 ctx.violation('proxy-keeps-broken-gateway', 'after %r raised %r the proxy still holds its gateway' % ({kind: plan[kind]}, exc), wit)
                 continue
-            # next use: transparent relay, must reconnect and be right
+            # next use: transparent relay, must reconnect and be right.  No fault is injected here, so the short timeout (which only
+            # serves to end waits for withheld frames quickly) is replaced by a generous one: on a loaded machine a healthy
+            # exchange may take longer than 0.4 s, and a wall-clock deadline must not decide
+            via.timeout = 20.0
             try:
                 with via:
                     again = list(via.read(attrs))
@@ -250,12 +254,12 @@ def poll_part(ctx, sim, rng, rounds):
         nplans = rng.choice([1, 2, 3])
         plans = []
         for _ in range(nplans):
-            kind = rng.choice(['s2c_cut', 's2c_cut', 's2c_cut', 'c2s_cut', 's2c_drop'])
-            plans.append({kind: rng.randrange(0, 700) if kind == 's2c_cut' else rng.randrange(0, 500) if kind == 'c2s_cut' else rng.choice([1, 2, 3])})
+            kind = rng.choice(['s2c_cut', 's2c_cut', 's2c_cut', 'c2s_cut'])      # cuts end the connection at once: no verdict waits on a timeout
+            plans.append({kind: rng.randrange(0, 700) if kind == 's2c_cut' else rng.randrange(0, 500)})
             relay.plan(**plans[-1])
         log = []                                # ('ok', results) | ('fail', repr, gateway_is_none, connections so far)
         wit = {'poll': True, 'params': params, 'fault_plans': plans}
-        via = get_attribute.proxy(host=relay.address[0], port=relay.address[1], timeout=0.4, depth=rng.choice([1, 2, 4]), identity_default='verif')
+        via = get_attribute.proxy(host=relay.address[0], port=relay.address[1], timeout=20.0, depth=rng.choice([1, 2, 4]), identity_default='verif')
 
         def loop(via_, **kw):
             out = real_loop(via_, **kw)
@@ -329,6 +333,9 @@ def run(ctx):
     sim = simdrv.TcpSim(reqgen.argv_of(CFG))
     try:
         sim.attributes()['F'][0:40] = [value_of(i) for i in range(40)]
+        # the two bounded parts first: the enumeration below runs until the soft budget is used up
+        proxy_part(ctx, sim, rng, 6 if quick else 60)
+        poll_part(ctx, sim, rng, 5 if quick else 60)
         settings = [(0, 0), (1, 0), (3, 0), (0, 200), (3, 200), (1, 4000)]
         k = 0
         while not ctx.expired():
@@ -337,8 +344,6 @@ def run(ctx):
             if quick and k > len(settings):
                 break
             run_setting(ctx, sim, rng, d, m, quick)
-        proxy_part(ctx, sim, rng, 6 if quick else 200)
-        poll_part(ctx, sim, rng, 5 if quick else 150)
     finally:
         sim.stop()
 
